@@ -70,11 +70,11 @@ P = {
    note="Trusted: Nat oracle.",
    tech=PBT + ", exact rational two-sided guard oracle", ref="C15"),
  "C16": dict(
-   text="pair_key is called directly on generated pairs of asset sets: equal keys iff equal unordered sets. Histories of CreatePair calls over native denoms with shared prefixes/varying lengths, cw20 tokens, unregistered denoms and non-token addresses are executed against a reference registry keyed by unordered asset identity: lookups in both orders agree with the model and with the pair's self-description, distinct sets never alias, duplicate/identical/invalid creations fail with whole-state equality, recorded decimals are the true ones (also when the owner re-registers a denom's decimals between creations).",
+   text="pair_key is called directly on generated pairs of asset sets: equal keys iff equal unordered sets. Histories of CreatePair calls over native denoms with shared prefixes/varying lengths, cw20 tokens, unregistered denoms and non-token addresses are executed against a reference registry keyed by unordered asset identity: lookups in both orders agree with the model and with the pair's self-description, distinct sets never alias, duplicate/identical/invalid creations fail with whole-state equality, recorded decimals are the true ones (also when the owner re-registers a denom's decimals between creations). A second suite runs trading histories with owner administration (re-registration, configuration, pair and factory migration) and compares, after every successful owner operation, the factory's record of every pair with that pair's own Pair answer member for member.",
    note="Trusted: cw-multi-test chain model.",
    tech=PBT + ", model-based testing against a reference registry", ref="C16"),
  "C17": dict(
-   text="Histories mixing pair creations and decimals (re-)registrations with 1..40 pairs are executed against a model of denom->decimals and pair->[dec0,dec1]; after every step factory record == pair self-description == model for every pair, with registry sizes straddling the listing limits 10 and 30.",
+   text="Histories mixing pair creations and decimals (re-)registrations with 1..40 pairs are executed against a model of denom->decimals and pair->[dec0,dec1]; after every step factory record == pair self-description == model for every pair, with registry sizes straddling the listing limits 10 and 30. A second suite judges the same agreement for LIVE pairs: trading histories (provisions, swaps, withdrawals, routes) with owner administration interleaved, judged after every successful owner operation.",
    note="Trusted: cw-multi-test chain model.",
    tech=PBT + ", model-based testing against a reference registry", ref="C17"),
  "C18": dict(
